@@ -24,7 +24,63 @@ func (c *c14) Rule() string {
 
 var c14Limits = []uint32{3072, 3072, 0, 16, 64, 5, 300}
 
+// edgeLimits are the limits at the edges of the 32-bit range. A limit-sized buffer cannot be
+// afforded there, so a run under one of them detects from byte slices only.
+var edgeLimits = []uint32{1<<31 - 1, 1 << 31, 1<<32 - 2, 1<<32 - 1, 1<<32 - 1}
+
 func (c *c14) Plan(seed uint64, tier string, worker, workers, idx int) *Plan {
+	p := c.plan(seed, tier, worker, workers, idx)
+	r := core.NewRand(core.Mix(seed, 0xed9e, uint64(worker), uint64(idx)))
+	if !r.Chance(1, 16) {
+		return p
+	}
+	// one of the run's limits (wherever it occurs: initial value, SetLimit calls, limit
+	// clauses of predicates) becomes an edge value; readers and files become byte slices
+	cand := []uint32{p.Limit0}
+	visit := func(f func(op *Op)) {
+		for i := range p.Pre {
+			f(&p.Pre[i])
+		}
+		for ti := range p.Tasks {
+			for oi := range p.Tasks[ti] {
+				f(&p.Tasks[ti][oi])
+			}
+		}
+	}
+	visit(func(op *Op) {
+		if op.Kind == "setlimit" {
+			cand = append(cand, op.Limit)
+		}
+	})
+	from, to := cand[r.Intn(len(cand))], edgeLimits[r.Intn(len(edgeLimits))]
+	if from >= 1<<31 {
+		return p
+	}
+	if p.Limit0 == from {
+		p.Limit0 = to
+	}
+	done := map[*model.Ext]bool{}
+	visit(func(op *Op) {
+		if op.Kind == "setlimit" && op.Limit == from {
+			op.Limit = to
+		}
+		if e := op.Ext; e != nil && !done[e] {
+			done[e] = true
+			if e.Pred.LimitEq == int64(from)+1 {
+				e.Pred.LimitEq = int64(to) + 1
+			}
+			if e.Pred.LimitNe == int64(from)+1 {
+				e.Pred.LimitNe = int64(to) + 1
+			}
+		}
+		if (op.Kind == "reader" || op.Kind == "file") && op.In != nil && op.FileKind != "enoent" && op.FileKind != "eacces" && op.FileKind != "real-missing" {
+			op.Kind, op.Del, op.Wrap, op.FileKind, op.StatSize, op.NameExt = "detect", nil, "", "", 0, ""
+		}
+	})
+	return p
+}
+
+func (c *c14) plan(seed uint64, tier string, worker, workers, idx int) *Plan {
 	r := core.NewRand(core.Mix(seed, 0xc14, uint64(worker), uint64(idx)))
 	p := &Plan{Prop: "C14", Limit0: c14Limits[r.Intn(len(c14Limits))], MaxSteps: 400000}
 	p.Pool = []string{"lifo", "adversarial", "steal", "fifo"}[r.Intn(4)]
